@@ -2,6 +2,7 @@
   Props/C09.lean — table-layout round trips of the file formats.
 -/
 import PgmVerif.Model.IO
+import PgmVerif.Model.Generated
 import Mathlib.Algebra.Order.Floor.Ring
 import Mathlib.Algebra.Order.Field.Rat
 import Mathlib.Data.Rat.Floor
@@ -88,5 +89,8 @@ theorem C09_round4_bound (x : Rat) : |round4 x - x| ≤ 1 / 20000 := by
 example : flattenF 2 2 (fun i j => (i : Rat) + 10 * j) = [0, 1, 10, 11] := by
   simp [flattenF, List.range, List.range.loop]
   norm_num
+
+/-- extraction tie: NETWriter prints tables with the 4 decimals that `round4` / `C09_round4_bound` assume -/
+theorem C09_net_decimals_tie : Generated.netDecimals = some 4 := by decide
 
 end PgmVerif
